@@ -2,6 +2,8 @@ package main
 
 import (
 	"fmt"
+	"regexp"
+	"strconv"
 	"go/constant"
 	"go/token"
 	"go/types"
@@ -89,10 +91,14 @@ type Exec struct {
 	unk    map[string]bool // calls without any contract (havoc-all)
 	dry    *dryRun
 	obSeen map[string]bool
+	lemma  string
 }
 
 type dryRun struct {
-	written map[string]*HeapVer
+	at       map[string][]Term
+	unstable map[string]bool
+	allocd   map[string]bool
+	written  map[string]*HeapVer
 	all     bool
 	clock   bool
 	alloc   bool
@@ -100,7 +106,12 @@ type dryRun struct {
 
 func (st *State) top() *Frame { return st.stack[len(st.stack)-1] }
 
-func (x *Exec) fnName() string { return shortFn(x.root) }
+func (x *Exec) fnName() string {
+	if x.lemma != "" {
+		return x.lemma
+	}
+	return shortFn(x.root)
+}
 
 func shortFn(f *ssa.Function) string {
 	s := f.String()
@@ -116,8 +127,17 @@ func (x *Exec) emit(st *State, kind, detail, clause string, props []string, goal
 		// still record so the obligation exists (trivially discharged by construction)
 	}
 	name := fmt.Sprintf("%s/%s", x.fnName(), kind)
-	if detail != "" {
-		name += "[" + detail + "]"
+	switch kind {
+	case "bounds", "div-by-zero", "nil-map-write", "typeassert", "unreachable-panic", "frame", "lockset", "lock-released":
+		// positional details (block numbers, heap families) are not part of the obligation name:
+		// names must survive harmless edits. The detail stays in the clause text.
+		if detail != "" {
+			clause = "[" + detail + "] " + clause
+		}
+	default:
+		if detail != "" {
+			name += "[" + detail + "]"
+		}
 	}
 	vc := &VC{Ob: name, Fn: x.fnName(), Kind: kind, Clause: clause, Props: props,
 		Trace: strings.Join(st.trace, " "), Asserts: st.asserts[:len(st.asserts):len(st.asserts)], Goal: goal}
@@ -265,7 +285,7 @@ func (x *Exec) step(st *State) []*State {
 		n := newHeapConst("MD|"+fam, h.Dims, h.Elem, "h")
 		st.asserts = append(st.asserts, fmt.Sprintf("(= %s (store %s %s %s))", n.Name, h.Name, r.S, emp))
 		st.heaps["MD|"+fam] = n
-		st.recWriteH(h)
+		st.recWriteH(h, r)
 		st.assume(Eq(x.mapLen(st, r, kt, vt), IntLit(0)))
 		f.vals[i] = Sc{r}
 		f.pc++
@@ -602,6 +622,13 @@ func (x *Exec) valEq(st *State, a, b Val) Term {
 		return Eq(st.addrTerm(av.A), st.addrTerm(b.(PtrV).A))
 	case IfaceV:
 		bv := b.(IfaceV)
+		// comparison with the nil interface: the type tag decides
+		if bv.Tag.S == "0" {
+			return Eq(av.Tag, IntLit(0))
+		}
+		if av.Tag.S == "0" {
+			return Eq(bv.Tag, IntLit(0))
+		}
 		return And(Eq(av.Tag, bv.Tag), Eq(av.Pay, bv.Pay))
 	case StructV:
 		bv := b.(StructV)
@@ -1065,7 +1092,8 @@ func (x *Exec) havocLoop(st *State, f *Frame, lp int) {
 	li := x.eng.loops(f.fn)
 	hdr := li.hdrOf[lp]
 	// dry run of the body to find written heap families
-	dr := &dryRun{written: map[string]*HeapVer{}}
+	dr := &dryRun{written: map[string]*HeapVer{}, at: map[string][]Term{}, unstable: map[string]bool{}, allocd: map[string]bool{}}
+	ctr0 := reg.counter()
 	{
 		saved := x.dry
 		x.dry = dr
@@ -1091,6 +1119,12 @@ func (x *Exec) havocLoop(st *State, f *Frame, lp int) {
 			x.run(scratch)
 		}()
 	}
+	// allocation set only grows
+	{
+		n := newHeapConst("alloc", []Sort{SInt}, SBool, "al")
+		st.asserts = append(st.asserts, fmt.Sprintf("(forall ((r Int)) (! (=> (select %s r) (select %s r)) :pattern ((select %s r))))", st.alloc.Name, n.Name, n.Name))
+		st.alloc = n
+	}
 	// phis of the header
 	for _, in := range hdr.Instrs {
 		phi, ok := in.(*ssa.Phi)
@@ -1098,6 +1132,7 @@ func (x *Exec) havocLoop(st *State, f *Frame, lp int) {
 			break
 		}
 		f.vals[phi] = st.freshVal(phi.Type(), "loop_"+phi.Comment)
+		st.assumeAllocated(f.vals[phi])
 	}
 	if dr.all {
 		st.havocAll("loop body with uncontracted call")
@@ -1114,17 +1149,36 @@ func (x *Exec) havocLoop(st *State, f *Frame, lp int) {
 			// locations of objects allocated inside the loop body do not matter outside;
 			// conservatively havoc the whole family.
 			h := dr.written[fam]
-			st.heaps[fam] = newHeapConst(fam, h.Dims, h.Elem, "lp")
+			pre := st.heap(fam, h.Dims, h.Elem)
+			nh := newHeapConst(fam, h.Dims, h.Elem, "lp")
+			st.heaps[fam] = nh
+			// loop frame: locations of objects that existed before the loop and are not
+			// written by the body (writes to objects allocated inside the body, or at
+			// loop-invariant indices, are accounted for) keep their values.
+			if len(h.Dims) >= 1 && h.Dims[0] == SInt && !dr.unstable[fam] {
+				var excl []string
+				ok := true
+				for _, ix := range dr.at[fam] {
+					switch classifyIdx(ix, ctr0, dr) {
+					case "fresh":
+					case "stable":
+						excl = append(excl, ix.S)
+					default:
+						ok = false
+					}
+				}
+				if ok {
+					cond := fmt.Sprintf("(select %s r)", st.alloc.Name)
+					for _, e := range excl {
+						cond = fmt.Sprintf("(and %s (not (= r %s)))", cond, e)
+					}
+					st.asserts = append(st.asserts, fmt.Sprintf("(forall ((r Int)) (! (=> %s (= (select %s r) (select %s r))) :pattern ((select %s r))))", cond, nh.Name, pre.Name, nh.Name))
+				}
+			}
 		}
 	}
 	if dr.clock || dr.all {
 		st.advanceClock()
-	}
-	// allocation set only grows
-	{
-		n := newHeapConst("alloc", []Sort{SInt}, SBool, "al")
-		st.asserts = append(st.asserts, fmt.Sprintf("(forall ((r Int)) (! (=> (select %s r) (select %s r)) :pattern ((select %s r))))", st.alloc.Name, n.Name, n.Name))
-		st.alloc = n
 	}
 }
 
@@ -1250,7 +1304,7 @@ func (x *Exec) copySlice(st *State, b SliceV, lo, n Term) Val {
 		fam := "E|" + canon(b.Elem) + "|" + l.Path
 		dims := []Sort{SInt, SInt}
 		h := st.heap(fam, dims, l.Sort)
-		st.recWriteH(h)
+		st.recWriteH(h, r)
 		row := reg.fresh("row")
 		reg.declare(row, fmt.Sprintf("(declare-const %s (Array Int %s))", row, l.Sort))
 		q := reg.fresh("q")
@@ -1262,4 +1316,21 @@ func (x *Exec) copySlice(st *State, b SliceV, lo, n Term) Val {
 		st.heaps[fam] = nh
 	}
 	return SliceV{r, IntLit(0), n, b.Elem}
+}
+
+var kSymRe = regexp.MustCompile(`\bk(\d+)`)
+
+// classifyIdx: "fresh" if the index is a reference allocated inside the loop-body dry run,
+// "stable" if it mentions only symbols that existed before the loop, else "unstable".
+func classifyIdx(t Term, c0 int, dr *dryRun) string {
+	if dr.allocd[t.S] {
+		return "fresh"
+	}
+	for _, m := range kSymRe.FindAllStringSubmatch(t.S, -1) {
+		n, _ := strconv.Atoi(m[1])
+		if n > c0 {
+			return "unstable"
+		}
+	}
+	return "stable"
 }
